@@ -68,6 +68,8 @@ let order_free = function
   | AFirst | ALast | ANth _ | ACollect | ADedup | AMerge -> false
   | _ -> true
 
+let known_seen : (string, int) Hashtbl.t = Hashtbl.create 8
+
 (* judge one observed result: the definition first, then the model *)
 let judge (name : string) (f : agg) (known : string option) (o : obs option) (sp : res option option) (md : res option) : string option =
   let ex = exact_agg f in
@@ -75,7 +77,12 @@ let judge (name : string) (f : agg) (known : string option) (o : obs option) (sp
   match sp with
   | Some sp when not (matches_opt ex o sp) ->
       (match known with
-       | Some k when m_ok -> Some ("chk " ^ k)
+       | Some k when m_ok ->
+           (* a recorded deviation that the model reproduces exactly: reported for the first 25 cases only, so that
+              the driver's cap on printed verdicts can never hide a different violation *)
+           let c = (try Hashtbl.find known_seen k with Not_found -> 0) in
+           Hashtbl.replace known_seen k (c + 1);
+           if c < 25 then Some ("chk " ^ k) else None
        | _ -> Some ("chk " ^ name ^ "_value"))
   | _ -> if m_ok then None else Some ("diff " ^ name ^ "_model")
 
